@@ -6,13 +6,16 @@ use crate::engine::{CaseResult, Ctx, Fail, Report, Tier};
 
 pub mod c01;
 pub mod c02;
+pub mod c06;
 pub mod c07;
+pub mod c08;
 pub mod c09;
 pub mod c15;
 pub mod c16;
 pub mod c19;
 pub mod codec;
 pub mod hcobs_small;
+pub mod stream_in;
 pub mod streaming;
 
 pub struct PropDef {
@@ -28,7 +31,7 @@ pub struct PropDef {
 }
 
 pub fn all() -> Vec<PropDef> {
-    vec![c01::def(), c02::def(), c07::def(), c09::def(), c15::def(), c16::def()]
+    vec![c01::def(), c02::def(), c06::def(), c07::def(), c08::def(), c09::def(), c15::def(), c16::def()]
 }
 
 pub fn find(id: &str) -> Option<PropDef> {
